@@ -454,12 +454,15 @@ package algo
 // characters are equal is decided through string conversion and strings.ToLower in the non-normalising
 // branch: library semantics, not specified here.)
 //@ func EqualMatch
-//@ property C02 C01 C05
+//@ property C02 C01 C05 C03
 //@ requires text != nil && validChars(text) && validRunes(pattern)
 //@ ensures r1 == nil && (r0.Start < 0 ==> r0.Start == -1 && r0.End == -1)
 //@ ensures r0.Start >= 0 ==> len(pattern) > 0 && r0.End == r0.Start + len(pattern) && r0.End <= clen(text)
 //@ ensures r0.Start >= 0 ==> r0.Start == (isSpace(pattern[0]) ? 0 : leadws(text, 0)) && clen(text) - r0.End == (isSpace(pattern[len(pattern)-1]) ? 0 : trailws(text, clen(text)))
 //@ ensures r0.Start >= 0 && normalize ==> forall(k, 0, len(pattern), norm(pattern[k]) == norm(caseSensitive ? at(text, r0.Start + k) : uto(1, at(text, r0.Start + k))))
+// (the score of an equal match: every character scores a match plus the white-space boundary bonus *of the scheme in
+//  force*, the first one that bonus once more)
+//@ ensures r0.Start >= 0 ==> r0.Score == (16 + bonusBoundaryWhite) * len(pattern) + bonusBoundaryWhite
 //@ loop 1
 //@   invariant len(runes) == clen(text) && forall(j, 0, len(runes), runes[j] == at(text, j)) && 0 <= trimmedLen && trimmedLen + lenPattern + trimmedEndLen == clen(text) && 0 <= trimmedEndLen
 //@   invariant match ==> forall(k, 0, iter, norm(pattern[k]) == norm(caseSensitive ? at(text, trimmedLen + k) : uto(1, at(text, trimmedLen + k))))
